@@ -32,26 +32,35 @@ Lens == IF Hostile THEN {0, 1, 40, 512, 513, 65536, 65537, -1} ELSE {0, 1, 40, 5
 SmallLens == {0, 1, 40, 512, 513}
 Offs == {0, 1, 5, 6, 2000, -1}
 
-VARIABLES proto, pl, logs, rv, outcome, hist
-hvars == <<proto, pl, logs, rv, outcome, hist>>
-hview == <<proto, pl, logs, rv, outcome>>
+VARIABLES proto, pl, logs, rv, outcome, hist, entry    \* entry: the script is the body of a receive function or of an init function
+hvars == <<proto, pl, logs, rv, outcome, hist, entry>>
+hview == <<proto, pl, logs, rv, outcome, entry>>
+(* functions that only a receive function may call trap inside init, and get_init_origin traps inside receive *)
+ReceiveOnly(f) == f \in {"invoke", "invoke_call", "get_receive_invoker", "get_receive_self_address", "get_receive_self_balance", "get_receive_sender", "get_receive_owner",
+                         "get_receive_entrypoint_size", "get_receive_entrypoint"}
+WrongEntry(f) == (entry = "init" /\ ReceiveOnly(f)) \/ (entry = "receive" /\ f = "get_init_origin")
 
 Limited == proto = 4
 Queries == proto >= 5
 SigChecks == proto >= 6
 Inspection == proto >= 7
 
-HInit == /\ proto \in {4, 5, 6, 7} /\ pl \in {0, 5, 2000}
+HInit == /\ proto \in {4, 5, 6, 7} /\ pl \in {0, 5, 2000} /\ entry \in {"receive", "init"}
          /\ logs = 0 /\ rv = 0 /\ outcome = "running" /\ hist = <<>>
 
 Running == outcome = "running" /\ Len(hist) < MaxOps
 (* op record: function, i32/i64 arguments, expected result, energy the call must charge at least *)
 Op(f, args, r, minE) == [f |-> f, args |-> args, r |-> r, min_energy |-> minE]
-Step(op, newLogs, newRv) ==
+Step(op0, newLogs0, newRv0) ==
+  LET wrong == WrongEntry(op0.f)
+      op == IF wrong THEN [op0 EXCEPT !.r = <<"trap">>, !.min_energy = 0] ELSE op0
+      newLogs == IF wrong THEN logs ELSE newLogs0
+      newRv == IF wrong THEN rv ELSE newRv0
+  IN
   /\ hist' = Append(hist, op)
   /\ logs' = newLogs /\ rv' = newRv
   /\ outcome' = IF op.r[1] \in {"trap", "trap_or_ooe"} THEN "trap" ELSE IF op.r[1] = "interrupt" THEN "interrupt" ELSE "running"
-  /\ UNCHANGED <<proto, pl>>
+  /\ UNCHANGED <<proto, pl, entry>>
 
 CopyParamCost(len) == IF len < 0 THEN 2147483647 ELSE IF len <= 1024 THEN 10 + len ELSE IF len > 2000000 THEN 2147483647 ELSE 10 + 1000 * len
 Lin(base, per, len) == IF len < 0 \/ len > 20000000 THEN 2147483647 ELSE base + per * len
@@ -85,7 +94,7 @@ LogBurst ==
   /\ Step(Op("log_burst", <<63>>, <<"i", 1>>, 0), 63, rv)
 
 (* getters that write a fixed number of bytes at a pointer: invoker 32, self address 16, sender (an account) 33, owner 32, entrypoint name 5 *)
-GetterSize(f) == CASE f = "get_receive_invoker" -> 32 [] f = "get_receive_self_address" -> 16 [] f = "get_receive_sender" -> 33
+GetterSize(f) == CASE f = "get_init_origin" -> 32 [] f = "get_receive_invoker" -> 32 [] f = "get_receive_self_address" -> 16 [] f = "get_receive_sender" -> 33
                    [] f = "get_receive_owner" -> 32 [] f = "get_receive_entrypoint" -> 5
 Getter(f, p) == Running /\ Step(Op(f, <<p>>, IF InMem(p, GetterSize(f)) THEN <<"void">> ELSE <<"trap">>, 0), logs, rv)
 Scalar(f) == Running /\ Step(Op(f, <<>>, <<"ctx">>, 0), logs, rv)      \* get_slot_time, get_receive_self_balance, get_receive_entrypoint_size
@@ -142,7 +151,7 @@ InvokeCall(plen, truncated) ==
          r == IF tooBig \/ truncated THEN <<"trap">> ELSE <<"interrupt", 1>>
      IN Step(Op("invoke_call", <<plen, IF truncated THEN 1 ELSE 0>>, r, 500), logs, rv)
 
-Finish == Running /\ hist # <<>> /\ outcome' = "success" /\ UNCHANGED <<proto, pl, logs, rv>> /\ hist' = Append(hist, Op("finish", <<>>, <<"success", rv, logs>>, 0))
+Finish == Running /\ hist # <<>> /\ outcome' = "success" /\ UNCHANGED <<proto, pl, logs, rv, entry>> /\ hist' = Append(hist, Op("finish", <<>>, <<"success", rv, logs>>, 0))
 
 HNext ==
   \/ \E i \in {0, 1, -1} : GetParameterSize(i)
@@ -150,7 +159,7 @@ HNext ==
   \/ \E p \in Ptrs, l \in Lens \cup {16384, 16385}, o \in {0, 1, 16383, 16384, 16385, -1} : WriteOutput(p, l, o)
   \/ \E p \in Ptrs, l \in Lens : LogEvent(p, l)
   \/ LogBurst
-  \/ \E f \in {"get_receive_invoker", "get_receive_self_address", "get_receive_sender", "get_receive_owner", "get_receive_entrypoint"}, p \in Ptrs \cup {65503, 65504, 65505, 65520, 65521, 65531, 65532} : Getter(f, p)
+  \/ \E f \in {"get_init_origin", "get_receive_invoker", "get_receive_self_address", "get_receive_sender", "get_receive_owner", "get_receive_entrypoint"}, p \in Ptrs \cup {65503, 65504, 65505, 65520, 65521, 65531, 65532} : Getter(f, p)
   \/ \E f \in {"get_slot_time", "get_receive_self_balance", "get_receive_entrypoint_size"} : Scalar(f)
   \/ \E f \in {"hash_sha2_256", "hash_sha3_256", "hash_keccak_256"}, p \in Ptrs, l \in {0, 1, 40, 65536, -1}, out \in {2048, 65504, 65505, -1} : Hash(f, p, l, out)
   \/ \E f \in {"state_lookup_entry", "state_create_entry", "state_delete_entry", "state_delete_prefix", "state_iterate_prefix"}, p \in Ptrs, l \in {0, 1, 40, 65536, 65537, -1} : KeyFn(f, p, l)
@@ -171,6 +180,6 @@ RvLimit == Limited => rv <= MaxRv
 NoOutsideAccess == \A i \in 1..Len(hist) : LET op == hist[i] IN
    (op.f \in {"write_output", "log_event"} /\ op.r[1] = "i" /\ op.r[2] >= 0) => InMem(op.args[1], op.args[2])
 Bound == Len(hist) <= MaxOps
-ExportDone == outcome # "running" => PrintT(<<"REPLAY", ToJson([proto |-> proto, pl |-> pl, ops |-> hist])>>)
-ExportEdge == PrintT(<<"REPLAY", ToJson([proto |-> proto, pl |-> pl, ops |-> hist'])>>)
+ExportDone == outcome # "running" => PrintT(<<"REPLAY", ToJson([proto |-> proto, pl |-> pl, entry |-> entry, ops |-> hist])>>)
+ExportEdge == PrintT(<<"REPLAY", ToJson([proto |-> proto, pl |-> pl, entry |-> entry, ops |-> hist'])>>)
 =============================================================================
